@@ -7,7 +7,7 @@ unset GOTOOLCHAIN GOSUMDB || true
 mkdir -p tools/bin harness/bin evidence replay
 (cd tools/extract && go build -o ../bin/extract .)
 tools/bin/extract -repo /repo -out lean/Rv/Gen all
-(cd lean && lake build Rv)
+(cd lean && lake build Rv $(cat drv_targets.txt))
 for d in harness/*/; do
   h=$(basename "$d")
   [ -f "$d/go.mod" ] || continue
